@@ -37,6 +37,7 @@ def merge_path(max_parts, backend_kind='fake', fixed=None):
         naming = pick('naming', list(NAMINGS))
         how = pick('how', ['list', 'pattern']) if naming == 'unpadded_numbers' else 'list'
         identified = pick('identified', [True, False])
+        with_assoc = pick('with_associated', [False, True])
         total = sum(sizes)
         symbolic_ids = identified and total <= 3
         ids = [symint(f'id{j}', 0, 10 ** 6) for j in range(total)] if symbolic_ids else ([(7919 * (j + 3)) % 1000 for j in range(total)] if identified else [None] * total)
@@ -47,23 +48,48 @@ def merge_path(max_parts, backend_kind='fake', fixed=None):
         if symbolic_ids and ex.concrete and len(set(ids)) != total:
             return dict(problems=[], layout='replay values not distinct', skipped=True)
         problems = []
-        layout = dict(parts=k, sizes=sizes, naming=naming, how=how, identified=identified)
+        layout = dict(parts=k, sizes=sizes, naming=naming, how=how, identified=identified, with_associated=with_assoc)
         with S.backend(backend_kind), _patches(backend_kind), S.Scratch('c09') as d:
             try:
-                paths, j = [], 0
+                paths, apaths, j = [], [], 0
+                extra = _extra_fieldset() if with_assoc else None
                 for i in range(k):
                     p = d / NAMINGS[naming](i)
-                    with ST.TrajectoryStore.create(base_file=p) as ts:
+                    ap = d / ('assoc_' + NAMINGS[naming](i))
+                    kw = dict(base_file=p)
+                    if with_assoc:
+                        kw['associated_files'] = [(ap, [extra.fieldset_name])]
+                    with ST.TrajectoryStore.create(**kw) as ts:
                         for _ in range(sizes[i]):
-                            ts.add(S.make_traj(j + 1, flight_id=ids[j]))
+                            t = S.make_traj(j + 1, flight_id=ids[j], fieldsets=[extra.fieldset_name] if with_assoc else None)
+                            if with_assoc:
+                                t.vf_extra = np.array([(j + 1) * 7.0 + q for q in range(len(t))])
+                            ts.add(t)
                             j += 1
                     paths.append(p)
+                    apaths.append(ap)
                 out = d / 'merged.aeic-store'
+                aout = d / 'merged_assoc.aeic-store'
                 if how == 'pattern':
                     ST.TrajectoryStore.merge(output_store=out, input_stores_pattern=d / 'chunk_{index}.nc', input_stores_index_range=(9, 9 + k - 1))
+                    if with_assoc:
+                        ST.TrajectoryStore.merge(output_store=aout, input_stores_pattern=d / 'assoc_chunk_{index}.nc', input_stores_index_range=(9, 9 + k - 1))
                 else:
                     ST.TrajectoryStore.merge(output_store=out, input_stores=paths)
-                with ST.TrajectoryStore.open(base_file=out) as ts:
+                    if with_assoc:
+                        ST.TrajectoryStore.merge(output_store=aout, input_stores=apaths)
+                okw = dict(base_file=out)
+                if with_assoc:
+                    okw['associated_files'] = [aout]
+                with ST.TrajectoryStore.open(**okw) as ts:
+                    if with_assoc:
+                        for i in range(min(total, len(ts))):
+                            try:
+                                v = ts[i].vf_extra
+                                if len(v) != len(ts[i]) or any(abs(float(v[q]) - ((i + 1) * 7.0 + q)) > 1e-9 for q in range(len(v))):
+                                    problems.append(f'index {i}: data of the merged associated store belongs to another trajectory ({[float(x) for x in v]})')
+                            except Exception as e:  # noqa
+                                problems.append(f'index {i}: associated data: {type(e).__name__}: {e}')
                     if len(ts) != total:
                         problems.append(f'length {len(ts)} != sum of input lengths {total}')
                     for i in range(total):
